@@ -129,6 +129,9 @@ class CType:
     def is_record(self):
         return not self.derivs and self.kind == 'record'
 
+    def ptr_to(self):
+        return CType(self.base, list(self.derivs) + [('ptr', False)], False, self.kind, self.rec)
+
     def decl(self, name='', keep_const=True):
         """C declarator for a variable called name"""
         d = name
@@ -1925,6 +1928,13 @@ class Lowerer:
         if d.get('isImplicit') or d.get('explicitlyDefaulted'):
             if callee.get('name') == 'operator=':
                 t = self.ctype(args[0]['type'])
+                ps = [p for p in d.get('inner', []) if p.get('kind') == 'ParmVarDecl']
+                is_move = bool(ps) and '&&' in ps[0]['type'].get('qualType', '')
+                if t.is_record() and self.assign_is_nontrivial(t, is_move):
+                    # implicitly defined assignment of a class whose bases/members have user-provided assignment: memberwise, as the language defines it
+                    body = self.implicit_assign('qx_l', 'qx_r', t, is_move)
+                    return '(*({ %s = %s; %s = &(%s); %s qx_l; }))' % (
+                        t.ptr_to().decl('qx_l', keep_const=False), self.addr_of(args[0]), t.ptr_to().decl('qx_r', keep_const=False), self.record_value(args[1], t), body)
                 return '(%s = %s)' % (self.expr(args[0]), self.record_value(args[1], t))
             raise LowerError('implicit operator %s' % callee.get('name'))
         cname = self.request_fn(callee)
@@ -1935,6 +1945,60 @@ class Lowerer:
             s = '%s(%s)' % (cname, ', '.join(self.call_args(d, args)))
         rt = self.ctype(self.ret_type_str(d))
         return '(*%s)' % s if rt.is_ref() else s
+
+    def find_assign_op(self, rec, is_move):
+        """user-provided operator= of record `rec` taking an rvalue (is_move) or const lvalue reference; None if implicit/defaulted/absent"""
+        for c in (rec or {}).get('inner', []):
+            if c.get('kind') == 'CXXMethodDecl' and c.get('name') == 'operator=':
+                ps = [p for p in c.get('inner', []) if p.get('kind') == 'ParmVarDecl']
+                if len(ps) != 1:
+                    continue
+                qt = ps[0]['type'].get('qualType', '')
+                if ('&&' in qt) != is_move:
+                    continue
+                dd = self.ast.fn_def.get(c.get('mangledName'), c)
+                if dd.get('isImplicit') or dd.get('explicitlyDefaulted') or c.get('isImplicit') or c.get('explicitlyDefaulted'):
+                    return None
+                return dd
+        return None
+
+    def record_parts(self, t):
+        """[(member path, CType)] of the direct bases and record-typed fields of record type t"""
+        out = []
+        for i, b in enumerate(t.rec.get('bases') or []):
+            out.append(('qx_base%d' % i if i else 'qx_base', self.ctype(b['type'])))
+        for f in t.rec.get('inner', []):
+            if f.get('kind') == 'FieldDecl' and f.get('name'):
+                ft = self.ctype(f['type'])
+                out.append((f['name'], ft))
+        return out
+
+    def assign_is_nontrivial(self, t, is_move):
+        if t.rec is None or t.rec.get('tagUsed') == 'union':
+            return False
+        for nm, pt in self.record_parts(t):
+            if pt.is_record() and not pt.derivs:
+                if self.find_assign_op(pt.rec, is_move) is not None or self.assign_is_nontrivial(pt, is_move):
+                    return True
+        return False
+
+    def implicit_assign(self, l, r, t, is_move):
+        """statements assigning *r to *l memberwise (l, r: pointer expressions)"""
+        out = ''
+        for nm, pt in self.record_parts(t):
+            if pt.is_record() and not pt.derivs:
+                op = self.find_assign_op(pt.rec, is_move)
+                if op is not None:
+                    out += '%s(&(%s)->%s, &(%s)->%s); ' % (self.request_fn(op), l, nm, r, nm)
+                    continue
+                if self.assign_is_nontrivial(pt, is_move):
+                    out += self.implicit_assign('(&(%s)->%s)' % (l, nm), '(&(%s)->%s)' % (r, nm), pt, is_move)
+                    continue
+            if pt.is_array():
+                out += '__builtin_memcpy((%s)->%s, (%s)->%s, sizeof((%s)->%s)); ' % (l, nm, r, nm, l, nm)
+            else:
+                out += '(%s)->%s = (%s)->%s; ' % (l, nm, r, nm)
+        return out
 
     def strip(self, e):
         while e.get('kind') in ('ImplicitCastExpr', 'ParenExpr', 'MaterializeTemporaryExpr', 'ExprWithCleanups', 'CXXBindTemporaryExpr'):
